@@ -109,7 +109,18 @@ void *sym_fn(const char *name)
 /* the raw generator output is an input of the path: every call takes the next recorded draw */
 static int draws_exhausted;
 static uint64_t draw_fill = 0x9E3779B97F4A7C15ull;
+static uint64_t draw_log[4096];
+static unsigned draw_n, draw_i;
+static uint64_t draw_next(void);
+void sym_draws_rewind(void) { draw_i = 0; }
 uint64_t cmb_random_sfc64(void)
+{
+    if (draw_i < draw_n) return draw_log[draw_i++];
+    uint64_t v = draw_next();
+    if (draw_n < 4096) { draw_log[draw_n++] = v; draw_i = draw_n; }
+    return v;
+}
+static uint64_t draw_next(void)
 {
     /* a violation reported in mid-path leaves the rest of the draws open: any value is an admissible continuation */
     if (!draws_exhausted) {
@@ -125,6 +136,8 @@ uint64_t cmb_random_sfc64(void)
     draw_fill = draw_fill * 6364136223846793005ull + 1442695040888963407ull;
     return (draw_fill & ~0xffull) | 1u;      /* stays on the ziggurat hot paths */
 }
+#else
+void sym_draws_rewind(void) { }
 #endif
 
 /* the engine runs the library with a configurable page size (option pagesize): give the native run the same one */
